@@ -33,6 +33,8 @@ def scenario(ctx, i):
     lab = np.concatenate([np.arange(K), r.integers(0, K, N - K)])
     x = centers[lab] + r.normal(size=(N, D)) * spread + offset
     cent = centers + 0.2 * r.normal(size=(K, D)) * spread + offset
+    if K >= 2 and r.random() < 0.2:  # a centroid that attracts no sample (its weight is 0; the others are still the assigned fractions)
+        cent[int(r.integers(0, K))] += 1e3 * spread
     return dict(K=K, D=D, x=x, cent=cent, sizes=gen.random_composition(r, N), spread=spread, offset=offset)
 
 
@@ -103,14 +105,17 @@ def correspondence(ctx):
         lcmp("kmeans_dist:predict_single", ml[:1], core.impl(lambda: np.asarray(m.predict(x[0])).reshape(-1)), keep[:1])
         # variances and weights
         counts = np.bincount(ml, minlength=sc["K"])
-        if np.any(counts == 0) or not np.all(keep):
-            ctx.count("vw-discarded:empty-cluster-or-tie")
+        if not np.all(keep):
+            ctx.count("vw-discarded:tie")
             continue
+        full = counts > 0
+        ctx.count("vw:with-empty-cluster" if not np.all(full) else "vw:all-clusters-populated")
         mv, mw = core.dec(vw["var"]), core.dec(vw["w"])
         vtol = 1e-7 * sc["spread"] ** 2
         for op, xin in (("kmeans_vw:numpy", x), ("kmeans_vw:dask", dask_of(sc))):
             r = core.impl(lambda: m.get_variances_and_weights_for_each_cluster(xin))
-            if isinstance(r, core.ImplError) or not (core.close(mv, np.asarray(r[0], dtype=float), 1e-7, vtol) and core.close(mw, np.asarray(r[1], dtype=float), 1e-12, 0)):
+            # an empty cluster has no variance to speak of: its row is not compared; every weight is
+            if isinstance(r, core.ImplError) or not (core.close(mv[full], np.asarray(r[0], dtype=float)[full], 1e-7, vtol) and core.close(mw, np.asarray(r[1], dtype=float), 1e-12, 0)):
                 bad.append({"op": op, "input": inp, "model": {"var": mv, "w": mw}, "impl": repr(r) if isinstance(r, core.ImplError) else [np.asarray(r[0]), np.asarray(r[1])]})
     # GMM initialised from a real k-means run: starts from exactly the k-means centroids / weights / clamped variances
     lines, meta = [], []
@@ -167,10 +172,11 @@ def oracle(sc):
         lab = core.impl(f)
         if isinstance(lab, core.ImplError) or lab.shape != lab_ref.shape or not np.array_equal(lab[keep], lab_ref[keep]):
             return {"sig": "label-not-nearest-centroid", "what": f"{name}: {lab!r} vs {lab_ref.tolist()}"}
-    if len(set(lab_ref.tolist())) < len(cent) or not np.all(keep):
+    if not np.all(keep):
         return None
     counts = np.bincount(lab_ref, minlength=len(cent))
-    vref = np.array([x[lab_ref == k].var(axis=0) for k in range(len(cent))])
+    full = counts > 0
+    vref = np.array([x[lab_ref == k].var(axis=0) if full[k] else np.zeros(x.shape[1]) for k in range(len(cent))])
     spread2 = float(np.max(vref)) if np.max(vref) > 0 else 1.0
     for name, xin in (("numpy", x), ("dask", dask_of(sc))):
         r = core.impl(lambda: m.get_variances_and_weights_for_each_cluster(xin))
@@ -179,8 +185,9 @@ def oracle(sc):
         v, w = np.asarray(r[0], dtype=float), np.asarray(r[1], dtype=float)
         if not core.close(w, counts / counts.sum(), 1e-12, 0) or abs(w.sum() - 1) > 1e-12:
             return {"sig": "weights-not-assigned-fractions", "what": f"{name}: {w.tolist()} vs {(counts / counts.sum()).tolist()}"}
-        if np.any(v < -1e-9 * spread2) or not np.all(np.abs(v - vref) <= 1e-6 * spread2):
-            return {"sig": "variances-not-cluster-variances", "what": f"{name}: offset {sc.get('offset')} max |var - biased sample variance| = {np.max(np.abs(v - vref))} "
+        v, vref_ = v[full], vref[full]
+        if np.any(v < -1e-9 * spread2) or not np.all(np.abs(v - vref_) <= 1e-6 * spread2):
+            return {"sig": "variances-not-cluster-variances", "what": f"{name}: offset {sc.get('offset')} max |var - biased sample variance| = {np.max(np.abs(v - vref_))} "
                     f"(largest cluster variance {spread2}); min var {v.min()}"}
     return None
 
